@@ -1208,14 +1208,14 @@ theorem c13_shape_Roster_GetID :
 
 theorem c13_shape_Roster_Concat :
     Shapes.tree_Roster_Concat =
-   ["NewRoster", "assign:tmpRoster:=NewRoster(ro.List)", "range:_,si:=sis{", "tmpRoster.Search",
-     "assign:i,_:=tmpRoster.Search(si.ID)", "if:(i<0)",
+   ["NewRoster", "assign:tmpRoster:=NewRoster(ro.List)", "range:_,si:=sis{", "si.GetID",
+     "tmpRoster.searchByKey", "assign:i,_:=tmpRoster.searchByKey(si.GetID())", "if:(i<0)",
      "assign:tmpRoster.List=append(tmpRoster.List,si)", "}", "return:NewRoster(tmpRoster.List)"] := rfl
 
 theorem c13_shape_Roster_NewRosterWithRoot :
     Shapes.tree_Roster_NewRosterWithRoot =
-   ["assign:list:=make(conv,len(ro.List))", "copy", "ro.Search",
-     "assign:rootIndex,_:=ro.Search(root.ID)", "if:(rootIndex<0)", "return:nil",
+   ["assign:list:=make(conv,len(ro.List))", "copy", "root.GetID", "ro.searchByKey",
+     "assign:rootIndex,_:=ro.searchByKey(root.GetID())", "if:(rootIndex<0)", "return:nil",
      "assign:list[0],list[rootIndex]=list[rootIndex],list[0]", "return:NewRoster(list)"] := rfl
 
 theorem c13_shape_Roster_RandomSubset :
